@@ -533,3 +533,49 @@ stringref = dict(
     dropped=['reference parameters as pointers', 'std::string_view as (pointer, length)', 'the unused size-cache parameters', 'decode_and_store_arg (fmt argument store: unit DFAS.push_back[std::string_view])'],
     trusted=['memcpy (CBMC built-in)'], min_obligations=5)
 UNITS += [stringref]
+
+# ------------------------------------------------------------------------------------------ the variadic wrappers: size pass + encode pass over the per-thread size cache
+PASS_RULES = [(r'>>\.\.\.>\)', '>>>)', '?'),                                   # pack of ONE argument: the expansion of the trait list is the list itself
+              (r'\(\(total_sum\s*\+=\s*Codec<remove_cvref_t<Args>>::compute_encoded_size\(conditional_arg_size_cache,\s*args\)\),\s*\.\.\.\)\s*;', 'total_sum += CD_compute_encoded_size(cache_p, arg_p);', '!'),
+              (r'\(Codec<remove_cvref_t<Args>>::encode\(buffer,\s*conditional_arg_size_cache,\s*conditional_arg_size_cache_index,\s*args\),\s*\.\.\.\)\s*;', 'CD_encode(buffer_p, cache_p, &conditional_arg_size_cache_index, arg_p);', '?'),
+              (r'\bconditional_arg_size_cache\b(?!_)', '(*cache_p)', '?')]
+PASS_PRE = CSTR_PRE + r'''
+static inline void IV_clear(IV* v) { v->n = 0; }
+'''
+passes_funcs = funcs('using Arg = char const*;', 'char const*', 'char const*', strings=True) + [
+    dict(src=dict(header=H, cls=None, name='compute_encoded_size_and_cache_string_lengths'), src_params=['conditional_arg_size_cache', 'args'], cfun='SIZE_PASS', sig='size_t SIZE_PASS(IV* cache_p, char const* const* arg_p)',
+         constexpr_gxx='using Args = char const*;', methods={'clear': 'IV_clear'}, pre_rules=PASS_RULES),
+    dict(src=dict(header=H, cls=None, name='encode'), src_params=['buffer', 'conditional_arg_size_cache', 'args'], cfun='ENCODE_PASS', sig='void ENCODE_PASS(unsigned char** buffer_p, IV* cache_p, char const* const* arg_p)',
+         constexpr_gxx='using Args = char const*;', methods={'clear': 'IV_clear'}, pre_rules=[r if r[0] != PASS_RULES[1][0] else (r[0], r[1], '?') for r in PASS_RULES]),
+    dict(cfun='lem_passes', text=r'''
+void lem_passes(void)
+__CPROVER_assigns()
+__CPROVER_ensures(1 == 1)
+{
+  static unsigned char buf[BUFSZ];
+  /* the per-thread size cache of a fresh thread (InlinedVector constructor: empty) */
+  IV cache; cache.n = 0;
+  static char s1[MAXLEN + 1]; static char s2[MAXLEN + 1]; size_t k1, k2; __CPROVER_assume(k1 <= MAXLEN && k2 <= MAXLEN); s1[k1] = 0; s2[k2] = 0;
+  char const* a1 = s1; char const* a2 = s2;
+  /* statement 1: its size pass always runs; when the queue refuses the reservation (dropping queue) log_statement returns before the encode pass */
+  size_t const size1 = SIZE_PASS(&cache, &a1);
+  bool dropped;
+  if (!dropped) { unsigned char* w1 = buf; ENCODE_PASS(&w1, &cache, &a1); __CPROVER_assert((size_t)(w1 - buf) == size1, "C04: statement 1: bytes written == bytes reserved"); }
+  /* statement 2 of the same thread */
+  size_t const size2 = SIZE_PASS(&cache, &a2);
+  __CPROVER_assert(size2 == safe_strnlen(a2) + 1, "C04: the space reserved for a statement is the encoded size of ITS arguments, whatever the thread logged (or was refused) before");
+  unsigned char* w = buf;
+  ENCODE_PASS(&w, &cache, &a2);
+  __CPROVER_assert((size_t)(w - buf) == size2, "C04,C08: after a refused (dropped) or an accepted statement the next statement's encode pass writes exactly the bytes its size pass reserved: it is delivered intact");
+  unsigned char* r = buf; char const* d = CD_decode_arg(&r);
+  __CPROVER_assert(r == w && safe_strnlen(d) == safe_strnlen(a2) && memcmp(d, a2, safe_strnlen(a2) + 1) == 0, "C04,C08: the record decodes to the statement's own argument");
+}
+''')]
+passes = dict(
+    name='CD.passes[char const*]', primary='C04', props={'C04', 'C08'}, kind='L',
+    desc='detail::compute_encoded_size_and_cache_string_lengths + detail::encode (the variadic wrappers, pack of one C string) over the per-thread size cache, as LoggerImpl::log_statement calls them for two statements in a row, the first possibly refused by a dropping queue after its size pass: the second is encoded with its own cached lengths',
+    structs=[], prelude=BASE + PASS_PRE + 'typedef char const* Arg;\n', enforce='lem_passes', replace=[], funcs=passes_funcs, harness='  lem_passes();',
+    cbmc=['--unwind', str(L + 3), '--unwinding-assertions'], bounded=dict(bound='C strings of length <= %d; histories of two statements (refused or accepted, then accepted)' % L, form='a'),
+    dropped=['parameter pack instantiated with ONE argument (fold expressions over a pack of one = the expression itself); reference parameters as pointers'],
+    trusted=['memcpy (CBMC built-in), memchr (executable model)'], assumes=['harness assumes: string terminators within the bound'], allow_assume=True, min_obligations=5)
+UNITS += [passes]
